@@ -70,10 +70,26 @@ struct World {
 	int                     reject_mode = 0;
 	int                     npre = 0;
 	bool                    registered = false;
+	bool                    late = false; // callbacks registered after connections may already exist: per-dialer pipe knowledge is incomplete
 	bool                    sock_open  = true;
 	const char             *ev_fail = nullptr;
 	char                    ev_msg[200];
 	int                     nrejected = 0, nposted = 0;
+	// inproc: dialers of S towards an address on which a harness-owned peer socket listens (or not)
+	struct IDia {
+		nng_dialer d;
+		int        id = 0;
+		int        mint = 10, maxt = 0;
+		bool       open = true;
+		int        attempts = 0; // pipes announced (ADD_PRE) for this dialer
+		uint64_t   due = 0;
+	};
+	std::deque<IDia> idia;
+	nng_socket       ipeer;
+	bool             ipeer_open = false;
+	nng_listener     ilis;
+	bool             ilistening = false;
+	std::string      iurl;
 };
 
 static void
@@ -120,6 +136,11 @@ pipe_cb(nng_pipe p, nng_pipe_ev ev, void *arg)
 				if (q.second.id != id && q.second.dialer_id == r.dialer_id && q.second.last != 3)
 					ev_fail(W, "C14:dialer-two-pipes", "dialer %d: pipe %u announced while its pipe %u has not been removed", r.dialer_id, id, q.second.id);
 		W->npre++;
+		for (auto &I : W->idia)
+			if (I.id == r.dialer_id && r.dialer_id > 0) {
+				I.attempts++;
+				I.due = 0;
+			}
 		bool rej = false;
 		switch (W->reject_mode) {
 		case 1: rej = true; break;
@@ -140,6 +161,32 @@ pipe_cb(nng_pipe p, nng_pipe_ev ev, void *arg)
 		if (r.rejected)
 			ev_fail(W, "C14:add-post-after-reject", "pipe %u was closed inside ADD_PRE but ADD_POST was delivered", id);
 	}
+}
+
+// the peer socket's ADD_PRE callback dawdles: while it runs, the inproc listener has no accept outstanding and further
+// connects queue up behind it
+static bool g_slow_peer_cb = false; // only while an "ilisten 3" race is in progress (pipe callbacks are serialised process-wide)
+static void
+ipeer_cb(nng_pipe, nng_pipe_ev, void *)
+{
+	if (!g_slow_peer_cb)
+		return;
+	for (int i = 0; i < 3; i++)
+		vs_yield();
+	vs_sleep(3); // (a slow application callback: 3 virtual ms)
+}
+
+struct ICloser {
+	World *W;
+	int    after;
+};
+static void
+icloser_main(void *arg)
+{
+	ICloser *C = (ICloser *) arg;
+	if (C->after > 0)
+		vs_sleep(C->after);
+	nng_listener_close(C->W->ilis);
 }
 
 static void
@@ -271,8 +318,35 @@ service(World *W)
 			    (int) di, D.mint, D.maxt, D.why, (unsigned long long) (D.due - bound_of(D)), (unsigned long long) vs_now(), D.attempts, (unsigned long long) D.last_attempt);
 		}
 	}
+	for (size_t k = 0; k < W->idia.size(); k++) {
+		auto &I = W->idia[k];
+		if (I.due != 0 && (!I.open || !W->ilistening || !W->sock_open || !W->registered))
+			I.due = 0;
+		if (I.due != 0 && vs_now() > I.due)
+			vr_fail("C14:no-redial", "inproc dialer %d (reconnect min %d max %d ms): a listener has been up on its address since %llu or earlier, but no new pipe was announced by %llu (%d so far)",
+			    (int) k, I.mint, I.maxt, (unsigned long long) (I.due - (uint64_t) (std::max(I.mint, I.maxt) + 40)), (unsigned long long) vs_now(), I.attempts);
+	}
 	if (W->ev_fail)
 		vr_fail(W->ev_fail, "%s", W->ev_msg);
+}
+
+static bool
+idialer_has_live_pipe(World *W, int id)
+{
+	for (auto &q : W->pipes)
+		if (q.second.dialer_id == id && q.second.last != 3)
+			return true;
+	return false;
+}
+
+static void
+ioblige(World *W)
+{
+	if (!W->ilistening || !W->registered || W->late)
+		return;
+	for (auto &I : W->idia)
+		if (I.open && I.due == 0 && !idialer_has_live_pipe(W, I.id))
+			I.due = vs_now() + (uint64_t) (std::max(I.mint, I.maxt) + 40);
 }
 
 static void
@@ -342,6 +416,7 @@ exec_c14(const vcase *vc)
 	case 1: H_OK(nng_pull0_open(&W.s)); W.rawproto = SP_PUSH; vr_tag("proto_pull"); break;
 	default: H_OK(nng_pub0_open(&W.s)); W.rawproto = SP_SUB; vr_tag("proto_pub"); break;
 	}
+	W.late = late != 0;
 	if (!late)
 		reg(&W);
 	else
@@ -546,6 +621,83 @@ exec_c14(const vcase *vc)
 			drain_app(&W);
 		} else if (strcmp(n, "register") == 0 && !W.registered) {
 			reg(&W);
+		} else if (strcmp(n, "idial") == 0 && W.idia.size() < 3 && W.sock_open) {
+			World::IDia I;
+			I.mint = (int) vop_arg(o, 0, 10);
+			I.maxt = (int) vop_arg(o, 1, 0);
+			if (I.mint < 1 || I.mint > 500 || I.maxt < 0 || I.maxt > 500)
+				continue;
+			if (W.iurl.empty()) {
+				snprintf(buf, sizeof buf, "inproc://c14-%d", (int) getpid());
+				W.iurl = buf;
+			}
+			if (nng_dialer_create(&I.d, W.s, W.iurl.c_str()) != 0)
+				continue;
+			H_OK(nng_dialer_set_ms(I.d, NNG_OPT_RECONNMINT, I.mint));
+			H_OK(nng_dialer_set_ms(I.d, NNG_OPT_RECONNMAXT, I.maxt));
+			I.id = nng_dialer_id(I.d);
+			W.idia.push_back(I);
+			H_OK(nng_dialer_start(I.d, NNG_FLAG_NONBLOCK));
+			vr_tag("inproc_dialer");
+			ioblige(&W);
+		} else if (strcmp(n, "ilisten") == 0) {
+			int mode = (int) vop_arg(o, 0, 1); // 1 listen, 0 close, 2 flap: listen and close again without letting things settle
+			if (W.iurl.empty()) {
+				snprintf(buf, sizeof buf, "inproc://c14-%d", (int) getpid());
+				W.iurl = buf;
+			}
+			if (!W.ipeer_open) {
+				int rv = W.proto == 0 ? nng_bus0_open(&W.ipeer) : W.proto == 1 ? nng_push0_open(&W.ipeer) : nng_sub0_open(&W.ipeer);
+				if (rv != 0)
+					continue;
+				W.ipeer_open = true;
+				nng_pipe_notify(W.ipeer, NNG_PIPE_EV_ADD_PRE, ipeer_cb, NULL);
+			}
+			if (mode == 3 && !W.ilistening) {
+				// listen, and let another thread close the listener k ms later, while the dialers are (re)connecting
+				if (nng_listen(W.ipeer, W.iurl.c_str(), &W.ilis, 0) != 0)
+					continue;
+				int     k = (int) vop_arg(o, 1, 3);
+				ICloser C = {&W, k < 0 ? 0 : k > 30 ? 30 : k};
+				g_slow_peer_cb = true;
+				int     h = vs_spawn(icloser_main, &C);
+				wait_ms(&W, C.after + 2);
+				vs_join(h);
+				g_slow_peer_cb = false;
+				wait_ms(&W, 4); // let a callback that is still dawdling finish before anything else is judged
+				vr_tag("inproc_listener_closed_during_connects");
+			} else if ((mode == 1 || mode == 2) && !W.ilistening) {
+				if (nng_listen(W.ipeer, W.iurl.c_str(), &W.ilis, 0) != 0)
+					continue;
+				W.ilistening = true;
+				if (mode == 2) {
+					vs_yield();
+					nng_listener_close(W.ilis);
+					W.ilistening = false;
+					vr_tag("inproc_listener_flap");
+				} else {
+					vr_tag("inproc_listener_up");
+					ioblige(&W);
+				}
+			} else if (mode == 0 && W.ilistening) {
+				nng_listener_close(W.ilis);
+				W.ilistening = false;
+				for (auto &I : W.idia)
+					I.due = 0;
+			}
+		} else if (strcmp(n, "idclose") == 0) {
+			if (W.idia.empty())
+				continue;
+			auto &I = W.idia[(size_t) vop_arg(o, 0, 0) % W.idia.size()];
+			if (I.open) {
+				nng_dialer_close(I.d);
+				I.open = false;
+				I.due  = 0;
+			}
+		} else if (strcmp(n, "stall") == 0) {
+			// longer than the 10 s negotiation timeout: connections stuck in the handshake are expired by nng
+			vs_sleep(11000);
+			vr_tag("negotiation_timeout_passed");
 		} else if (strcmp(n, "wait") == 0) {
 			int ms = (int) vop_arg(o, 0, 1);
 			if (ms < 1 || ms > 600)
@@ -553,12 +705,15 @@ exec_c14(const vcase *vc)
 			wait_ms(&W, ms);
 		}
 		service(&W);
+		ioblige(&W); // (a dialer that lost its pipe while the address is being listened on owes a new one)
 		drain_app(&W);
 	}
 	// let every outstanding redial obligation fall due
 	uint64_t latest = 0;
 	for (auto &D : W.dia)
 		latest = std::max(latest, D.due);
+	for (auto &I : W.idia)
+		latest = std::max(latest, I.due);
 	if (latest > vs_now()) {
 		vr_tag("redial_obligation_at_end");
 		wait_ms(&W, (int) (latest - vs_now()) + 2);
@@ -592,6 +747,7 @@ exec_c14(const vcase *vc)
 			c.owner_l = (int) li;
 			c.hs      = HS_GOOD;
 			vs_settle();
+			int     npre_before = W.npre;
 			uint8_t hello[8];
 			rp_hello(hello, W.rawproto);
 			rp_write(&c.r, hello, 8);
@@ -603,6 +759,16 @@ exec_c14(const vcase *vc)
 			if (c.r.rxlen < 8)
 				vr_fail("C14:listener-stopped-accepting", "final probe: listener %d (kind %d) did not answer a well-behaved peer's handshake within 160 ms", (int) li, L.kind);
 			c.hs_ok = true;
+			// ... and the connection must become a pipe of the socket, not just a negotiated transport connection
+			if (W.registered) {
+				int pre0 = npre_before;
+				for (int t = 0; t < 100 && W.npre == pre0; t++) {
+					vs_sleep(1);
+					vs_settle();
+				}
+				VR_CHECK(W.npre > pre0, "C14:listener-stopped-accepting", "final probe: listener %d (kind %d) completed the handshake but no pipe was announced within 100 ms", (int) li,
+				    L.kind);
+			}
 			vr_tag("final_accept_probe");
 		}
 	service(&W);
@@ -623,6 +789,8 @@ exec_c14(const vcase *vc)
 	for (auto &q : W.pipes)
 		if (q.second.post && q.second.last != 3)
 			vr_fail("C14:no-rem-post", "pipe %u reached ADD_POST but had no REM_POST when nng_socket_close returned", q.second.id);
+	if (W.ipeer_open)
+		nng_socket_close(W.ipeer);
 	if (W.ev_fail)
 		vr_fail(W.ev_fail, "%s", W.ev_msg);
 	if (W.nrejected)
@@ -632,6 +800,9 @@ exec_c14(const vcase *vc)
 	int redials = 0;
 	for (auto &D : W.dia)
 		if (D.attempts >= 2)
+			redials++;
+	for (auto &I : W.idia)
+		if (I.attempts >= 2)
 			redials++;
 	if (redials)
 		vr_tag("redial_observed");
@@ -658,7 +829,7 @@ genOp()
 {
 	return gen::exec([]() {
 		std::ostringstream o;
-		int k = *pbt::welem<int>({{3, 0}, {4, 1}, {6, 2}, {3, 3}, {2, 4}, {4, 5}, {3, 6}, {1, 7}, {1, 8}, {2, 9}, {3, 10}, {6, 11}, {1, 12}});
+		int k = *pbt::welem<int>({{3, 0}, {4, 1}, {6, 2}, {3, 3}, {2, 4}, {4, 5}, {3, 6}, {1, 7}, {1, 8}, {2, 9}, {3, 10}, {6, 11}, {1, 12}, {1, 13}, {3, 14}, {4, 15}, {1, 16}});
 		switch (k) {
 		case 0: o << "lis " << *pbt::range<int>(0, 2); break;
 		case 1: o << "dial " << *pbt::welem<int>({{3, 1}, {1, 2}}) << " " << *gen::element(5, 10, 20, 80) << " " << *gen::element(0, 0, 10, 40, 160) << " " << *pbt::welem<int>({{3, 1}, {1, 0}}); break;
@@ -672,7 +843,11 @@ genOp()
 		case 9: o << "send"; break;
 		case 10: o << "rsend"; break;
 		case 11: o << "wait " << *gen::element(1, 2, 5, 10, 25, 50, 100); break;
-		default: o << "register"; break;
+		case 12: o << "register"; break;
+		case 13: o << "stall"; break;
+		case 14: o << "idial " << *gen::element(5, 10, 20) << " " << *gen::element(0, 0, 40); break;
+		case 15: o << "ilisten " << *pbt::welem<int>({{4, 1}, {2, 0}, {1, 2}, {4, 3}}) << " " << *pbt::range<int>(0, 12); break;
+		default: o << "idclose " << *pbt::range<int>(0, 2); break;
 		}
 		return o.str();
 	});
@@ -702,9 +877,9 @@ main(int argc, char **argv)
 	sp.exec       = exec_c14;
 	sp.watchdog_s = 90;
 	sp.rule = "a BUS / PULL / PUB socket with up to 3 listeners (socket-fd / ipc / tcp) and up to 3 dialers (ipc / tcp, reconnect min 5..80 ms, max 0..160 ms) "
-	          "towards raw stream listeners that appear and disappear; raw peers connect with a good, garbage, truncated, wrong-protocol or aborted handshake "
+	          "towards raw stream listeners that appear and disappear, and up to 3 inproc dialers towards an address on which a peer socket listens, stops or flaps; raw peers connect with a good, garbage, truncated, wrong-protocol or aborted handshake "
 	          "and drop connections; the application closes pipes inside ADD_PRE by pattern (none / all / every 2nd / first / every dialed one), closes pipes and "
-	          "endpoints, registers the callbacks late; messages flow both ways. Oracle: per pipe ADD_PRE < ADD_POST < REM_POST, each once, nothing without "
+	          "endpoints, registers the callbacks late, lets 11 s pass (negotiation timeout); messages flow both ways. Oracle: per pipe ADD_PRE < ADD_POST < REM_POST, each once, nothing without "
 	          "ADD_PRE; no ADD_POST and no application message for a pipe closed in ADD_PRE; a dialer never has two announced "
 	          "pipes; after each loss / failed handshake / rejection / reappearing listener a new connection attempt reaches the raw listener within "
 	          "max(reconnect min, max) + 40 ms of virtual time while the dialer is open; open listeners answer a well-behaved peer at any time and at the end; "
